@@ -2,6 +2,7 @@ package resolve
 
 import (
 	"context"
+	"encoding/json"
 	"io"
 	"slices"
 	"sync"
@@ -214,21 +215,17 @@ func (g *GraphQLVariableRenderer) renderGraphQLValue(data *astjson.Value, out io
 	}
 	switch data.Type() {
 	case astjson.TypeString:
-		_, _ = out.Write(literal.BACKSLASH)
-		_, _ = out.Write(literal.QUOTE)
-		b := data.GetStringBytes()
-		for i := range b {
-			switch b[i] {
-			case '"':
-				_, _ = out.Write(literal.BACKSLASH)
-				_, _ = out.Write(literal.BACKSLASH)
-				_, _ = out.Write(literal.QUOTE)
-			default:
-				_, _ = out.Write(b[i : i+1])
-			}
+		// A JSON string is a valid GraphQL string literal (same escapes). The literal is placed
+		// inside a JSON string (the query of the request), so it is escaped once more.
+		lit, err := json.Marshal(string(data.GetStringBytes()))
+		if err != nil {
+			return err
 		}
-		_, _ = out.Write(literal.BACKSLASH)
-		_, _ = out.Write(literal.QUOTE)
+		quoted, err := json.Marshal(string(lit))
+		if err != nil {
+			return err
+		}
+		_, _ = out.Write(quoted[1 : len(quoted)-1])
 	case astjson.TypeObject:
 		_, _ = out.Write(literal.LBRACE)
 		o := data.GetObject()
